@@ -1,5 +1,6 @@
 import GridVerif.Model.Proto
 import GridVerif.Model.AngularPy
+import GridVerif.Model.AngularNp
 import GridVerif.Gen.AngularLogic
 
 /-
@@ -24,6 +25,49 @@ def sVal : Val → String
 def showPair : Py (Val × Val) → String
   | .ok (d, s) => s!"ok {sVal d} {sVal s}"
   | .error e => e.tag
+
+/-- A warning as one token: `category:stacklevel:depth:message` (blanks of the message as `_`). -/
+def sWarn (w : Warning) : String :=
+  s!"{w.category}:{w.stacklevel}:{w.depth}:{w.message.replace " " "_"}"
+
+def sWarns (l : List Warning) : String := sVec sWarn l
+
+/-- Every `(package, file name)` of the regenerated listing, in order. -/
+def flatFiles : List (String × String) := packageFiles.flatMap fun e => e.2.map fun x => (e.1, x.1)
+
+/-- A file system for cache histories: a listed file loads as one "point" carrying the file's
+position in `flatFiles` and a single weight; anything else does not exist. -/
+def tokenLoad (pkg name : String) : Py (Npz Float) :=
+  match flatFiles.findIdx? (· == (pkg, name)) with
+  | some i => .ok ⟨[[Float.ofNat i]], [1.0]⟩
+  | none => .error .osError
+
+def tokenName (p : List (List Float)) : String :=
+  match p with
+  | [[x]] => match flatFiles[x.toUInt64.toNat]? with
+    | some (pkg, name) => s!"{pkg}/{name}"
+    | none => "?"
+  | _ => "?"
+
+def sCaches (c : Caches Float) : String :=
+  sVec (fun e => s!"{e.1.1}:{e.1.2}:{tokenName e.2.1}") c
+
+/-- `k` constructor calls `(method, degree, size, cache)` one after the other on the same cache
+dictionaries (empty at the start), through the generated `initFull`. -/
+def runHist (caches : Caches Float) : List String → Option (List String)
+  | [] => some []
+  | m :: a :: b :: c :: rest => do
+    let a ← pVal a
+    let b ← pVal b
+    let c ← match c with | "1" => some true | "0" => some false | _ => none
+    match initFull tokenLoad caches a b c m with
+    | .ok (d, mm, p, _, caches', l) =>
+      let tl ← runHist caches' rest
+      pure (s!"ok {sVal d} {mm} {tokenName p} {sCaches caches'} {sWarns l}" :: tl)
+    | .error e =>
+      let tl ← runHist caches rest
+      pure (e.tag :: tl)
+  | _ => none
 
 def handle : List String → Option String
   | ["C12.resolve", m, "deg", n] => do
@@ -52,6 +96,35 @@ def handle : List String → Option String
     match initDefault with
     | .ok (d, s, c, k, pkg, file) => pure s!"ok {sVal d} {sVal s} {c} {sVal k} {pkg} {file}"
     | .error e => pure e.tag
+  | ["C12.gdsw", m, a, b] => do
+    let a ← pVal a
+    let b ← pVal b
+    match getDegreeAndSize_warnings a b m with
+    | .ok l => pure ("ok " ++ sWarns l)
+    | .error e => pure e.tag
+  | ["C12.cachedefault"] => pure (if initCacheDefault then "ok 1" else "ok 0")
+  | "C12.tail" :: npts :: rest => do
+    -- the loader after np.load, on the arrays of a real file (points as that many dummy rows)
+    let n ← pNat npts
+    let (ws, tl) ← pVec pFloat rest
+    if tl ≠ [] then none else
+    match loadPrecomputedAngularGrid_data (K := Float) ⟨List.replicate n [0.0, 0.0, 0.0], ws⟩ with
+    | .ok (p, w) => pure s!"ok {p.length} {sFloats w}"
+    | .error e => pure e.tag
+  | "C12.build" :: m :: a :: b :: c :: npts :: rest => do
+    -- one construction in a fresh state, the named file's arrays supplied by the caller
+    let a ← pVal a
+    let b ← pVal b
+    let c ← match c with | "1" => some true | "0" => some false | _ => none
+    let n ← pNat npts
+    let (ws, tl) ← pVec pFloat rest
+    if tl ≠ [] then none else
+    match initFull (fun _ _ => .ok ⟨List.replicate n [0.0, 0.0, 0.0], ws⟩) [] a b c m with
+    | .ok (d, mm, p, w, caches', l) => pure s!"ok {sVal d} {mm} {p.length} {caches'.length} {sWarns l} {sFloats w}"
+    | .error e => pure e.tag
+  | "C12.hist" :: rest => do
+    let out ← runHist [] rest
+    pure (String.intercalate " | " out)
   | "C12.convert" :: m :: rest => do
     let (xs, tl) ← pVec pInt rest
     if tl ≠ [] then none else
